@@ -227,6 +227,16 @@ func runC18(args []string) error {
 	for i := 0; i < nMain; i++ {
 		rands = append(rands, c18GenMain(r.fork(), i))
 	}
+	nMatrix := 2
+	if *tier == "thorough" {
+		nMatrix = 60
+	}
+	if *only != "" {
+		nMatrix = 0
+	}
+	for i := 0; i < nMatrix; i++ {
+		rands = append(rands, c18GenMatrix(r.fork(), i))
+	}
 	idx := 0
 	for _, reg := range c18Regions {
 		for i := 0; i < nRegion; i++ {
